@@ -155,7 +155,11 @@ func renderStmt(b *strings.Builder, s Stmt, d int) {
 	case *Panic:
 		w("panic(%s);", quote(s.Msg))
 	case *Append:
-		w("append(&'%s, %s);", X(s.Arr), X(s.Val))
+		if s.Ref {
+			w("append(%s, %s);", X(s.Arr), X(s.Val))
+		} else {
+			w("append(&'%s, %s);", X(s.Arr), X(s.Val))
+		}
 	case *Raw:
 		for _, l := range strings.Split(s.Text, "\n") {
 			b.WriteString(ind(d) + l + "\n")
